@@ -184,6 +184,54 @@ def main():
             print('== %s (%s): %s' % (name, meta['property'], det))
         json.dump({'seed': seed or 0, 'tier': tier, 'rows': rows}, open(os.path.join(V, 'selftest', 'seeded_last%s.json' % ('' if not seed else '_seed' + seed)), 'w'), indent=1)
         return 0 if all(all(x == 1 for x in r[2].values()) for r in rows) else 1
+    if a[0] == 'control':
+        # a behaviour-preserving refactoring written by an independent sub-agent: every check must stay silent on it
+        src = os.path.abspath(a[1])
+        meta = json.load(open(os.path.join(src, 'meta.json')))
+        tag = (keep or meta.get('id') or 'ctl').replace('/', '_')
+        tree = scratch_tree('ctl-' + tag)
+        ok = True
+        res = {}
+        try:
+            r = sh(['git', '-C', tree, 'apply', os.path.join(src, 'patch.diff')])
+            if r.returncode:
+                r = sh(['git', '-C', tree, 'apply', '--3way', os.path.join(src, 'patch.diff')])
+            if r.returncode:
+                print('patch does not apply: ' + r.stderr[:300])
+                return 1
+            if not nob:
+                b = sh([PY, os.path.join(V, 'tools', 'baseline.py'), tree])
+                line = [l for l in b.stdout.splitlines() if l.startswith('stable_pass')]
+                print('baseline on refactored tree: %s (exit %d)' % (line[0] if line else '?', b.returncode))
+                res['baseline'] = line[0] if line else '?'
+                ok &= b.returncode == 0
+            sc = os.path.join(src, 'selfcheck.py')
+            if os.path.exists(sc):
+                s1 = sh([PY, sc, tree], timeout=1200, cwd=src)
+                s0 = sh([PY, sc, '/repo'], timeout=1200, cwd=src)
+                print('selfcheck.py: refactored tree exit %d, /repo exit %d' % (s1.returncode, s0.returncode))
+                res['selfcheck'] = [s1.returncode, s0.returncode]
+            for c in (checks.split(',') if checks else ALL):
+                v = run_check(c, tree, tier=tier, runs=int(runs) if runs else None, seed=seed)
+                res[c] = {'exit': v['exit'], 'summary': v['summary'], 'first_violation': v['first']}
+                print('check %s on refactored tree: exit %d  %s  %s' % (c, v['exit'], v['summary'], v['first']))
+                if v['exit'] == 2:
+                    print(v['tail'])
+                ok &= v['exit'] == 0
+            if keep:
+                dst = os.path.join(V, 'controls', keep)
+                os.makedirs(dst, exist_ok=True)
+                shutil.copy(os.path.join(src, 'patch.diff'), os.path.join(dst, 'patch.diff'))
+                if os.path.exists(sc):
+                    shutil.copy(sc, os.path.join(dst, 'selfcheck.py'))
+                meta2 = {'id': keep, 'property': meta.get('property'), 'kind': 'behaviour-preserving refactoring (independent sub-agent)', 'summary': meta.get('summary'),
+                         'files': meta.get('files'), 'author_ran': meta.get('ran'), 'base_commit': sh(['git', '-C', '/repo', 'rev-parse', '--short', 'HEAD']).stdout.strip(),
+                         'results': res, 'all_checks_silent': bool(ok)}
+                json.dump(meta2, open(os.path.join(dst, 'meta.json'), 'w'), indent=1)
+                print('kept as controls/%s (all silent: %s)' % (keep, ok))
+        finally:
+            drop_tree(tree)
+        return 0 if ok else 1
     if a[0] == 'table':
         print('| seeded change | property | needs | caught by (quick tier) | not caught by |')
         print('|---|---|---|---|---|')
